@@ -93,7 +93,9 @@ def deliver (s : St) (buf : List Nat) (ft ial ri ci i : Nat) : St × Bool × Opt
     | some dri =>
       if (ri ^^^ dri) &&& 0xF ≠ 0 then
         (if ri &&& 0xF ≠ 0 then none else some lost)
-      else some s
+      else
+        -- the awaited repeat arrived; a repaired source (`Gen.idlRiClearedOnRecovery`) sets dx->ri = -1 here
+        some (if idlRiClearedOnRecovery then { s with ri := none } else s)
     | none => if ri &&& 0xF ≠ 0 then none else some s
   match r with
   | none =>
